@@ -41,6 +41,7 @@ def op1_variants():
         out.append(("createTopics", 0, "topic", vers(createtopics=cv), "createtopics-v%d" % cv))
     for dv in (0, 1):
         out.append(("deleteTopics", 0, "topic", vers(deletetopics=dv), "deletetopics-v%d" % dv))
+    out.append(("apiVersions", 0, "top", vers(), "apiversions-v0"))
     return out
 
 
@@ -85,6 +86,13 @@ def c11_scripts(tier):
                     continue
                 out.append({"id": "c11-%s-v%d-%s%d" % (k1, fv, k2, a2), "kind": "c11", "versions": vers(fetch=fv), "report": False, "ops": [
                     {"o": 1, "g": 1, "kind": k1, "arg": 2}, {"o": 2, "g": 1, "kind": k2, "arg": a2}, {"o": 3, "g": 1, "kind": "fetch", "arg": 5}]})
+    # the same on compressed data: the batch is left while a decompressed message set is only partly consumed and more
+    # batches follow in the response
+    for codec in (1, 2, 3, 4):
+        for fv in (2, 10):
+            for k1 in ("fetchShort", "fetchPartial", "fetchClose2"):
+                out.append({"id": "c11-%s-c%d-v%d" % (k1, codec, fv), "kind": "c11", "versions": vers(fetch=fv), "report": False, "codec": codec, "ops": [
+                    {"o": 1, "g": 1, "kind": k1, "arg": 0}, {"o": 2, "g": 1, "kind": "lastOffset", "arg": 0}, {"o": 3, "g": 1, "kind": "fetch", "arg": 5}]})
     # an answer carrying a foreign correlation id (framing error): this and every later operation fail, none hangs
     for (k1, a1, field, vs, tag) in op1_variants():
         for delta in (1, 1000, -1):
